@@ -27,5 +27,26 @@ package main
 //@   call 0 ConfigStringDefault("sizer.threshold") assert !chThreshold && !chVerbose && !chNoVerbose && !chCritical
 //@   call 0 ConfigStringDefault("sizer.names") assert !chNames
 //@   call 0 ConfigBoolDefault("sizer.progress") assert !chProgress && !chNoProgress
+//@   call 0 CollectReferences as refs
+//@   call 0 ScanRepositoryUsingGraph as scan
+//@   call 0 RefGroupBuilder).Finish as fin
+//@   call 0 ResolveObject as ro
+// C06: "all references when neither a selection option nor a ROOT is given;
+// none when only ROOTs are given": Finish is told whether there are no ROOTs.
+//@   call 0 FlagSet).Args as rootArgs
+//@   call 0 RefGroupBuilder).Finish assert arg_1 == (len(rootArgs) == 0)
+// C18: progress goes to stderr.
+//@   call 0 NewProgressMeter assert arg_0 == stderr
+// C10: the report is written to stdout only after a scan that returned no
+// error, and every failing phase makes the run fail.
+//@   call 0 io.WriteString assert scan_reached && scan1 == nil && arg_0 == stdout
+//@   call 0 fmt.Fprintf("%s\n") assert scan_reached && scan1 == nil && arg_0 == stdout
+//@   ensures scan_reached && scan1 != nil ==> result != nil
+//@   ensures refs_reached && refs1 != nil ==> result != nil
+//@   ensures fin_reached && fin1 != nil ==> result != nil
+//@   ensures result == nil && scan_reached ==> refs1 == nil && fin1 == nil && scan1 == nil
 
 //@ property C14: (*NegatedBoolValue).Set mainImplementation
+//@ property C10: mainImplementation
+//@ property C18: mainImplementation
+//@ property C06: mainImplementation
